@@ -7,6 +7,7 @@ Fault enumeration against the code: for every scenario the k-th call at the solv
    by TLC (FailStop.tla) against the clean run."""
 import concurrent.futures as cf
 import copy
+import json
 import math
 import random
 import signal
@@ -178,7 +179,12 @@ def main(tier, replay):
             if o["Dur"] != 86400:
                 continue
             for b in list(c04.s1_bodies())[::11] + list(c04.s1b_bodies())[::17]:
-                s = dict(o); s.update(copy.deepcopy(b)); pool.append(s)
+                s = dict(o); s.update(copy.deepcopy(b))
+                # FailStop compares with the declarative timeline: leave out the input class of the open C04 finding
+                # (rule atoms 'TIME = th'), which C04 / C10 report themselves
+                if '"rel": "="' in json.dumps(s["rules"]):
+                    continue
+                pool.append(s)
         rnd.shuffle(pool)
         for s in pool[:30 if tier == "quick" else 400]:
             for k in (0, 1, 2, 3, 5, 9, 17, 25):
